@@ -204,6 +204,13 @@ MUTATIONS = {
         old='image_cviews.add((canv, row, col, *trim, cols, rows))',
         new='image_cviews.add((canv, row, col, cols, rows))',
     ),
+    # own (= seeded C18-z1 in one hunk): only the ADDRESS of the last screen canvas is remembered; the canvas
+    # of a dropped / failed frame that nobody keeps dies and the next canvas gets its address
+    'c18-canvas-identity-by-id': dict(
+        file=FILE, props=["C18"], expect="draw_screen:after-released-canvas:bookkeeping:cviews-mismatch",
+        old='            if canvas is not self._ti_screen_canv:\n                self._ti_screen_canv = canvas\n                self._ti_clear_images()\n',
+        new='            if id(canvas) != getattr(self, "_ti_canv_id", None):\n                self._ti_canv_id = id(canvas)\n                self._ti_screen_canv = canvas\n                self._ti_clear_images()\n                self._ti_screen_canv = None\n',
+    ),
     # own
     'c18-stop-without-delete': dict(
         file=FILE, props=["C18"], equivalent=True,
